@@ -2048,8 +2048,6 @@ class IMAPClientCommand:
         # our other mailbox names are case sensitive.
         #
         mbox_name = self._p_astring()
-        if "\0" in mbox_name:
-            raise BadSyntax(value="a mailbox name can not contain NUL")
         if mbox_name.lower() == "inbox":
             mbox_name = "inbox"
         if mbox_name != "":
@@ -2111,6 +2109,10 @@ class IMAPClientCommand:
                 f"long, expected at least {literal_length}"
             )
         str = self.input[:literal_length]
+        if "\0" in str:
+            # literal ::= "{" number "}" CRLF *CHAR8 and CHAR8 excludes NUL
+            #
+            raise BadLiteral(value="a literal can not contain NUL")
         self.input = self.input[literal_length:]
         return str
 
